@@ -6,6 +6,9 @@ import Asts.Driver.Events
 import Asts.Driver.Upgrade
 import Asts.Driver.PodControl
 import Asts.Driver.Watch
+import Asts.Driver.Annot
+import Asts.Driver.Defaults
+import Asts.Driver.Codec
 open Asts.Driver
 
 /-- one input line `<case> => <impl observation>`; one output line `<model observation>\t<monitor verdict>\t<branch tag>` -/
@@ -23,6 +26,9 @@ def dispatch (engine : String) (line : String) : String :=
     | "podcontrol" => stepPodControl cas obs
     | "watch" => stepWatch cas obs
     | "watchpinned" => stepWatchPinned cas obs
+    | "annot" => AnnotDrv.stepAnnot cas obs
+    | "defaults" => DefaultsDrv.stepDefaults cas obs
+    | "codec" => CodecDrv.stepCodec cas obs
     | _ => "unknown-engine\tok\tbad"
   | _ => "bad-line\tok\tbad"
 
